@@ -151,6 +151,12 @@ def noScaleUpForTooBig (inp : Input) (ob : Obs) : Bool :=
 
 def ok (inp : Input) (ob : Obs) : Bool := fits inp ob && noTooBig inp ob && noScaleUpForTooBig inp ob
 
+/-- no reported or estimated size is negative (hypothesis of the C04 theorem; the driver counts
+    the inputs that do not meet it) -/
+def sizesOK (inp : Input) : Bool :=
+  (inp.probes.all fun p => (reported p).all fun kv => decide (0 ≤ kv.2.series) && decide (0 ≤ kv.2.total)) &&
+  inp.explore.all fun kv => decide (0 ≤ kv.2.series) && decide (0 ≤ kv.2.total)
+
 def clause (inp : Input) (ob : Obs) : String :=
   if !fits inp ob then "fits" else if !noTooBig inp ob then "noTooBig" else
   if !noScaleUpForTooBig inp ob then "noScaleUpForTooBig" else ""
